@@ -137,6 +137,19 @@ def make_groups(rng, p, style="contig"):
         s = int(min(left, rng.integers(1, 5)))
         sizes.append(s)
         left -= s
+    if style == "trap" and p >= 6:
+        # unsorted, non-adjacent groups whose first and last entries span exactly their length ([a, far, a + 2]):
+        # "is this index list a contiguous block?" shortcuts that only look at the end points get them wrong
+        a = int(rng.integers(0, p - 3))
+        far = int(rng.choice([j for j in range(p) if j < a or j > a + 2]))
+        first = np.array([a, far, a + 2])
+        rest = np.array([j for j in rng.permutation(p) if j not in set(first.tolist())])
+        out, k = [first], 0
+        while k < len(rest):
+            sz = int(min(len(rest) - k, rng.integers(1, 4)))
+            out.append(rest[k:k + sz])
+            k += sz
+        return out
     idx = np.arange(p) if style == "contig" else rng.permutation(p)
     out, k = [], 0
     for s in sizes:
